@@ -20,6 +20,7 @@ import (
 //	            Spawn calls this dispatch may make
 //	high:       message ID sent with priority High (must be handled by the pool process itself)
 //	work:       the handler worker W is blocked in returns (the worker then takes its next message, if any)
+//	zcrash:     Node.Kill(worker W) while its handler is held: the worker stays registered as a zombie
 //	crash:      Node.Kill(worker W);  exitcrash: the handler of worker W returns an error (the worker terminates)
 //	add/remove: AddWorkers(N) with Spawn results Plan / RemoveWorkers(N), called inside the pool process
 //	len:        p.pool.Len() is read
@@ -523,6 +524,21 @@ func runCase(node gen.Node, c PCase) *PResult {
 				release(w, false)
 				if !settle() {
 					return stall("step %d: workers did not settle", si)
+				}
+				collect()
+			}
+		case "zcrash":
+			// Node.Kill while the worker is held inside a callback: it stays registered (state Zombee) and
+			// Forward answers ErrProcessTerminated until the callback returns (at the end of the case)
+			if w := worker(s.W); w != nil && !w.killed {
+				deadIn++
+				w.killed = true
+				node.Kill(w.pid)
+				ev("ECrash %d", s.W)
+				if !w.inHandler.Load() {
+					if !waitGone(w.pid) {
+						return stall("step %d: worker did not go away", si)
+					}
 				}
 				collect()
 			}
